@@ -28,6 +28,7 @@ type Built struct {
 	envSet  []string
 	SetErrs []string // error kinds of the definition's SetValue calls
 	envFns  map[int]getoptions.ModifyFn
+	midHook func(b *Built) // runs while the program is only half declared (see BuildWith)
 }
 
 // scrubEnv - every variable the definition binds or sets is absent.
@@ -82,10 +83,22 @@ func (c *Cfg) HelpOpt() int {
 
 // SetEnv - installs the environment of the definition (GetEnv reads it at definition time).
 func (b *Built) setEnv() {
+	bound := map[string]bool{}
+	if b.Cfg.EnvStep {
+		for _, o := range b.Cfg.Opts {
+			if len(o.Env) > 0 {
+				bound[FromAtoms(o.Env)] = true
+			}
+		}
+	}
 	for _, e := range b.Cfg.Env {
 		name := FromAtoms(e.Name)
-		os.Setenv(name, FromAtoms(e.Val))
 		b.envSet = append(b.envSet, name)
+		if bound[name] {
+			os.Unsetenv(name) // set when the option that reads it is declared (defineOpt)
+			continue
+		}
+		os.Setenv(name, FromAtoms(e.Val))
 	}
 	// env variables bound by options but not set must be absent
 	for _, o := range b.Cfg.Opts {
@@ -116,9 +129,10 @@ func (b *Built) Cleanup() {
 func Build(cfg *Cfg) *Built { return BuildWith(cfg, nil) }
 
 // BuildWith - like Build; beforeHelp (if any) runs when everything but the help command / option has been declared
-// (a two-pass program parses once before it knows all its options).
+// (a two-pass program parses once before it knows all its options) and, when the options of a level are declared after
+// its commands (OptsLate), also earlier: when the top level's commands exist and its options do not yet.
 func BuildWith(cfg *Cfg, beforeHelp func(b *Built)) *Built {
-	b := &Built{Cfg: cfg, CtxTag: new(int)}
+	b := &Built{Cfg: cfg, CtxTag: new(int), midHook: beforeHelp}
 	os.Args = []string{FromAtoms(cfg.Prog)}
 	if cfg.Self {
 		os.Args = []string{"/some/where/else"}
@@ -261,12 +275,18 @@ func (b *Built) defineNode(n int, g *getoptions.GetOpt) {
 	}
 	for k, c := range kids {
 		if k == optsAt {
+			if n == 1 && k > 0 && b.midHook != nil {
+				b.midHook(b)
+			}
 			defineOpts()
 		}
 		cg := g.NewCommand(FromAtoms(cfg.Nodes[c-1].Name), FromAtoms(cfg.Nodes[c-1].Desc))
 		b.defineNode(c, cg)
 	}
 	if optsAt >= len(kids) {
+		if n == 1 && len(kids) > 0 && b.midHook != nil {
+			b.midHook(b)
+		}
 		defineOpts()
 	}
 }
@@ -290,6 +310,13 @@ func mustFloat(t Tok) float64 {
 func (b *Built) defineOpt(i int, g *getoptions.GetOpt) {
 	o := b.Cfg.Opts[i]
 	name := FromAtoms(o.Name)
+	if b.Cfg.EnvStep && len(o.Env) > 0 {
+		for _, e := range b.Cfg.Env {
+			if FromAtoms(e.Name) == FromAtoms(o.Env) {
+				os.Setenv(FromAtoms(e.Name), FromAtoms(e.Val))
+			}
+		}
+	}
 	fns := []getoptions.ModifyFn{}
 	// modifiers whose position among the others cannot matter (ValidValues -> SuggestedValues -> GetEnv keep their
 	// relative order: the environment value is checked against the valid values known at that moment)
